@@ -165,6 +165,22 @@ let handle case obs =
           ((if corr then obs else render ()), failed)
         | _ -> (["malformed"], ["malformed_observation"]))
      | _ -> failwith "bad gmapped case")
+  | ["gudpmux"; fx; nt; lo; mdns; mname; addrs] ->
+    let c = mk_cfg "1" nt "0" "0" lo mdns mname "-" "-" "0" "-" in
+    let ap t = match split_on ':' t with
+      | [a; p] -> (addr_of_hex a, z_of_string p) | _ -> failwith "bad mux address" in
+    let descs = Model.udpmux_model (bool_of_tok fx) c (List.map ap (lst addrs)) in
+    let render () = ["0"; "3"; "1"; ";"; "D"] @ List.sort compare (List.map desc_tok descs) in
+    (match groups obs with
+     | [[ret; st; nils]; "P" :: p; "L" :: l; "S" :: s] when ret <> "TIMEOUT" ->
+       let p = List.map cand_of p and l = List.map cand_of l and s = List.map sock_of s in
+       let ret = z_of_string ret and st = z_of_string st and nils = z_of_string nils in
+       let corr = Model.corresponds descs p s && Model.corresponds descs l s && s = []
+                  && Model.all_ok (Model.c18_finish_checks ret st nils p l) in
+       let failed = names (Model.failed (Model.c18_udpmux_checks c p))
+                    @ names (Model.failed (Model.c18_finish_checks ret st nils p l)) in
+       ((if corr then obs else render ()), failed)
+     | _ -> (["malformed"], ["malformed_observation"]))
   | "cycle" :: _ ->
     (match groups case with
      | ["cycle"; n] :: ops ->
